@@ -45,7 +45,7 @@ structure St where
   out : List (Nat × Outcome) := []     -- newest first
   issued : List (Nat × Option Nat × Bool) := []   -- ghost: waiter id ↦ (correlation id, quirk kind), newest first
   base : Nat := 0          -- ghost: the counter value the connection started with
-  sent : Nat := 0          -- ghost: number of correlated sends so far
+  sent : Nat := 0          -- ghost: number of correlation ids consumed so far
 deriving Inhabited
 
 /-- `_next_correlation_id` -/
@@ -80,6 +80,13 @@ def send (s : St) (corr? : Bool) (k : Kind) : St :=
              reqs := s.reqs ++ [{ id := s.nextId, corr := if corr? then some c else none, kind := k,
                                   done := false, deadline := s.now + s.timeoutMs,
                                   seqNo := if corr? then s.sent + 1 else 0 }] }
+
+/-- `send(request, expect_response=False)` (a Produce with acks=0): a correlation id is consumed and the
+    bytes are written, but no waiter is queued — the broker will not answer.  On a closed connection
+    the call raises `KafkaConnectionError` before anything happens. -/
+def sendNR (s : St) : St :=
+  if !s.isOpen then s else
+  { s with counter := nextCorr s.counter, sent := s.sent + 1 }
 
 /-- `parse_response_header`: correlation id (int32) and, for flexible versions, tagged fields -/
 def parseHeader (flexible : Bool) (frame : Bytes) : Option (Int × Bytes) :=
@@ -157,6 +164,7 @@ def cancel (s : St) (id : Nat) : St :=
 
 inductive Op where
   | send (corr? : Bool) (k : Kind)
+  | sendNR                   -- a request that expects no response (acks=0 produce)
   | feed (chunk : Bytes)
   | advance (dt : Nat)
   | cancel (id : Nat)
@@ -166,6 +174,7 @@ deriving Inhabited
 
 def step (s : St) : Op → St
   | .send c k => send s c k
+  | .sendNR => sendNR s
   | .feed ch => feed s ch
   | .advance dt => advance s dt
   | .cancel id => cancel s id
